@@ -255,7 +255,7 @@ func init() {
 		return nil
 	}
 	// functions that neither read nor write the modelled heap and whose result is left unconstrained
-	for _, k := range []string{".(error).Error", "context.Background", "context.TODO", "context.(Context).Done", "context.(Context).Err", "(*github.com/google/badwolf/bql/planner/tracer.Arguments).String"} {
+	for _, k := range []string{"time.Now", "time.(Time).Sub", "time.Since", ".(error).Error", "context.Background", "context.TODO", "context.(Context).Done", "context.(Context).Err", "(*github.com/google/badwolf/bql/planner/tracer.Arguments).String"} {
 		libPure[k] = true
 	}
 }
